@@ -288,7 +288,9 @@ ImplicitHandshake ==
   /\ UNCHANGED <<env, cfg>>
   /\ IF cfg.hs = "ok"
      THEN obs' = Observe(obs, [ev |-> "tls", ok |-> TRUE]) /\ cl' = [cl EXCEPT !.pc = "greeting", !.tls = TRUE, !.armed = TRUE]
-     ELSE /\ obs' = Observe(obs, [ev |-> "tls", ok |-> FALSE])
+     \* (a server that accepts the connection and never answers the ClientHello: the handshake is part of the dial and
+     \* bounded by the dial context, which carries the timeout of the Client)
+     ELSE /\ obs' = Observe(obs, IF cfg.hs = "stall" THEN [ev |-> "stall"] ELSE [ev |-> "tls", ok |-> FALSE])
           /\ cl' = [cl EXCEPT !.pc = IF cfg.fallback THEN "ifallback" ELSE "dialRet", !.top = "dial", !.dead = ~cfg.fallback]
 
 (* the fallback port (25) is dialled with TLS as well; the server there speaks cleartext SMTP: it sees *)
